@@ -145,6 +145,11 @@ CHECKS['C22'] = ('hist', 'model_checking', 'explicit-state BFS over operation hi
     'Every history of put/clear/expire/flush/restart up to depth 3 (quick: 50-operation menu; thorough: 106-operation menu at depth 3 plus 20-operation menu at depth 4) is executed on a real BroadcastMgr + WorkflowDatabaseManager + sqlite DB; broadcast state after every operation, the configuration received by tasks at three cycles, and the state after flush + DB reload into fresh managers are compared with a dict-overlay reference written from the statement.',
     'Decided up to depth/menu only; restart = the calls _load_pool_from_db makes, not a whole scheduler restart (that is C19).')
 
+CHECKS['C26'] = (
+    'schedmc', 'model_checking', A_TECH, '6/C26',
+    'The bookkeeping invariants (no duplicate proxy, proxy stored under its own key and point, no empty cycle bucket, cached task list = true contents, task_pool table = pool with status/flows/held) are evaluated after every transition of natural runs, runs with retries and failures, and runs with hold/trigger-new-flow/remove/set commands at every boundary plus stop and restart.',
+    A_NOTE)
+
 NOT_BUILT_REASON = (
     'check not built yet in this session (designed in DESIGN.md section 6); '
     'no verdict is claimed')
